@@ -84,6 +84,10 @@ Rungs(cls) == CASE cls = "pinhole" -> <<"0.093", "0.0465", "0.02325">>
 Ladders ==
     {[cls |-> "pinhole", rel |-> r, rel2 |-> "0.0", coef |-> p, rungs |-> Rungs("pinhole")] :
         r \in {"0.05", "0.1", "0.2", "0.3"}, p \in {x \in Polys : Len(x) <= 4}}
+    \* windows reaching below q = 0 (q < 2.5 sigma): the theory is taken at |q|; even polynomials, for which
+    \* f(|x|) = f(x) and the closed form is unchanged
+    \cup {[cls |-> "pinhole", rel |-> r, rel2 |-> "0.0", coef |-> p, rungs |-> Rungs("pinhole")] :
+        r \in {"0.6", "1.0"}, p \in {x \in Polys : Even(x)}}
     \cup {[cls |-> "slitL", rel |-> r, rel2 |-> "0.0", coef |-> p, rungs |-> Rungs("slitL")] :
         r \in {"0.1", "0.3", "0.6", "1.5", "3.0"}, p \in Polys}
     \cup {[cls |-> "slitW", rel |-> r, rel2 |-> "0.0", coef |-> p, rungs |-> Rungs("slitW")] :
